@@ -23,6 +23,49 @@ def layouts(k):
     return out
 
 
+def tall_layout(enc, config, rows, tl, obs):
+    """a tall batch (chunked / sliced implementations): `rows` messages of which the last one is symbolic and the others a fixed
+    pattern; every row must come back (the fixed rows are ground conjuncts of the same obligation)"""
+    k = enc.code_dimension
+    lname = f"({rows},k) tall, last row symbolic"
+    for mname, meth in methods(enc)[:2]:
+        def run(ctx):
+            M = ((torch.arange(rows * k).reshape(rows, k) * 7) % 3 == 0).float()
+            M[rows - 1] = fresh_bits("m", (k,))
+            c = enc(M)
+            try:
+                r = meth(c)
+            except (RuntimeError, ValueError, AssertionError, IndexError) as e:
+                return dict(M=M, exc=f"{type(e).__name__}: {str(e)[:100]}")
+            return dict(M=M, dec=r[0] if isinstance(r, tuple) else r)
+        paths = sym_paths(run, (), tl, max_paths=16)
+        status, viol = "holds", None
+        for ctx, R in paths:
+            if "exc" in R:
+                status, viol = "violated", dict(what=f"{mname} raises on a batch of {rows} codewords: {R['exc']}", witness={"rows": rows, "raises": True}, replay={"reproduced": True})
+                break
+            if tuple(R["dec"].shape) != (rows, k):
+                status, viol = "violated", dict(what=f"{mname} returns shape {tuple(R['dec'].shape)} for {rows} codewords", witness={"rows": rows}, replay={"reproduced": True})
+                break
+            st, model = decide(ctx, differs(elems(R["dec"]), elems(R["M"])))
+            if st == "violated":
+                mb = model_bits(model, "m", k)
+                with _disable_current_modes():
+                    M = ((torch.arange(rows * k).reshape(rows, k) * 7) % 3 == 0).float()
+                    M[rows - 1] = real_bits(mb, (k,))
+                    r = meth(enc(M))
+                    got = r[0] if isinstance(r, tuple) else r
+                    bad_rows = [i for i in range(rows) if not torch.equal(got[i].float(), M[i])]
+                status, viol = "violated", dict(what=f"{mname}(enc(M)) != M on rows {bad_rows[:10]} of a batch of {rows} (last row {mb})", witness={"m": mb, "rows": rows}, replay={"reproduced": bool(bad_rows)})
+                break
+            if st == "inconclusive":
+                status = st
+        if viol:
+            obs.append(ob(f"{mname}:roundtrip[{lname}]", config, "violated", **viol, **tl.take()))
+        else:
+            obs.append(ob(f"{mname}:roundtrip[{lname}]", config, status, sample=dict(query=f"exists last-row message: {mname}(enc(M)) != M for a batch of {rows} rows", rows=rows), **tl.take()))
+
+
 def methods(enc):
     ms = [("inverse_encode", lambda c: enc.inverse_encode(c)), ("extract_message", lambda c: enc.extract_message(c))]
     if hasattr(enc, "project_word"):
@@ -178,6 +221,12 @@ def work(item):
                 continue  # keep term sizes bounded for the largest codes (stated bound: <= 400 coded bits per run)
             one_layout(enc, config, lname, shape, tl, obs)
         rejection(enc, config, tl, obs)
+        if type(enc).__name__ == "ReedMullerCodeEncoder" and enc.code_dimension <= 11:
+            tall_layout(enc, config, 10, tl, obs)
+            if TIER == "thorough" and enc.code_dimension <= 7:
+                tall_layout(enc, config, 300, tl, obs)
+        elif TIER == "thorough" and enc.code_length <= 8 and enc.code_dimension <= 4:
+            tall_layout(enc, config, 300, tl, obs)
     except NotEncodable as e:
         obs.append(ob("harness", config, "error", what=f"NotEncodable: {e}"))
     return obs
@@ -203,7 +252,7 @@ def main():
     ck.encoded(L.LinearBlockCodeEncoder.forward, L.LinearBlockCodeEncoder.inverse_encode, L.compute_right_pseudo_inverse, SL.SystematicLinearBlockCodeEncoder.project_word,
                SL.SystematicLinearBlockCodeEncoder.forward, base.BaseBlockCodeEncoder.extract_message, hamming_code.HammingCodeEncoder.inverse_encode,
                reed_muller_code.ReedMullerCodeEncoder.inverse_encode, U.apply_blockwise)
-    ck.bound("layouts", "1-D (k,), (2,k), (2,2,k), (2,b*k) for b=2..3 (quick) / 2..4 (thorough), (3k,); all messages of each layout in one query")
+    ck.bound("layouts", "1-D (k,), (2,k), (2,2,k), (2,b*k) for b=2..3 (quick) / 2..4 (thorough), (3k,); all messages of each layout in one query; Reed-Muller codes also on a tall batch of 10 (thorough: 300) rows whose last row is symbolic")
     ck.bound("sizes", "<= 400 coded bits per symbolic run; Reed-Muller nearest-codeword inverse bounded to k <= 5 (quick) / 7 (thorough)")
     ck.assume("rejection of non-multiple lengths is a ground check per shape (shapes are concrete in this technique)")
     ck.run_items(__name__, "work", items)
